@@ -19,7 +19,8 @@ RULE = ('Exhaustive: all patterns x texts over the 14-symbol alphabet {a b % _ .
         'through rbql.query_table in batches (one batch = one text x every pattern, so the per-query regex cache holds thousands of patterns) and '
         'through rbql_engine.like_to_regex directly; rbql-js evaluates the same query for |p|,|t| <= 2 (and the reduced alphabets up to length 3/4). '
         'Hypothesis: random pairs up to length 5 over the alphabet and longer Unicode pairs (single-line texts). Oracle = dynamic-programming '
-        'matcher without regular expressions. Non-trivial = pattern contains a wildcard and a regex metacharacter; enumerated pairs are distinct by construction.')
+        'matcher without regular expressions. Non-trivial = pattern contains a wildcard and a regex metacharacter; enumerated pairs are distinct by construction.'
+        ' Later additions: every ASCII character as a literal pattern character, identifier-like patterns (constructor, __proto__, ...), all 44521 short pairs in one query per engine, pairs of 16 .. 1000 characters.')
 ASSUMPTIONS = ['texts are single-line (no LF)', 'the space of pairs up to length 5 over the full alphabet (3e11 pairs) is sampled, not enumerated']
 META = set('.*\\[(^$+?|')
 
